@@ -17,10 +17,14 @@ import time
 from pathlib import Path
 
 ROOT = Path(__file__).resolve().parent.parent
+# the tree under test (default /repo) and where run output goes (default /verif): overridable so that seeded changes can be
+# evaluated in scratch worktrees, in parallel, without touching /repo
+REPO = os.environ.get("VERIF_REPO", "/repo")
+OUT = Path(os.environ.get("VERIF_OUT", str(ROOT)))
 SPECS = ROOT / "specs"
-WORK = ROOT / ".work"
-EVID = ROOT / "evidence"
-REPLAYS = ROOT / "replays"
+WORK = OUT / ".work"
+EVID = OUT / "evidence"
+REPLAYS = OUT / "replays"
 FINDINGS = ROOT / "known_findings.json"
 JAR = "/opt/veriftools/tla/tla2tools.jar:/opt/veriftools/tla/CommunityModules-deps.jar"
 NCPU = min(16, os.cpu_count() or 4)
